@@ -10,10 +10,18 @@ CHECKS = {
    text='Every mutation sequence up to the stated depth over the enabled-mutation alphabet, from every start spec of families S1/S2/S3, is executed through the real AppMutator/SQLExecutor against in-memory SQLite with a DatabaseState scanned from the real database; after every transition the introspected schema must equal the schema Django itself creates for the reference-evolved models. Exhaustive within the bounds; right level because the property is universally quantified over programs.',
    note='Trusts Django 4.2 schema editor as "created from scratch", SQLite PRAGMA introspection, and the reference semantics only as far as the per-step signature agreement check forces it. Names of indexes/constraints and column order are not compared. Children of violating transitions are not expanded.',
    design='3/C01'),
+ 'C02': dict(level='model_checking', technique='explicit-state BFS over mutation sequences on populated databases; reference row semantics checked after every transition',
+   text='The C01 state space with start states populated by row profiles R2 and R6 (NULLs, empty strings, quotes, percent signs, unicode, boundary numbers, FK and M2M links); after every accepted transition the row dump must equal the reference row semantics (surviving values unchanged across renames/rebuilds, new columns hold the declared initial, null->not-null replaces exactly the NULLs).',
+   note='Row contents are fixed profiles, not an enumerated space. Expected stored form of an initial is what Django stores for the field type. Batched multi-mutation evolutions are covered by C03 (batched rows == stepwise rows) composed with this single-step oracle.',
+   design='3/C02'),
  'C03': dict(level='model_checking', technique='exhaustive path enumeration (stateless, no dedup) over mutation sequences; each path run 4-5 ways on the real AppMutator/Evolver; violating paths delta-minimised',
    text='Every reference-valid mutation sequence up to length 3 (quick) / 4 (thorough) over the narrow alphabet, and length 2/3 over the full two-model alphabet, is executed stepwise (reference), batched through one AppMutator, batched again with the same objects, and through the real Evolver task pipeline (prepare then _build_batches); final signature (Diff-empty both ways), schema dump and row dump must agree and the mutation definitions must be unaltered.',
    note='Stepwise execution (W1) defines the outcome; paths whose W1 run fails or differs from a fresh creation are outside the domain (C01). Random length-12 sequences of the property text are sampling and are not done.',
    design='3/C03'),
+ 'C11': dict(level='model_checking', technique='explicit-state BFS over rename/delete mutation sequences; invariant on the simulated signature and on PRAGMA foreign_key_list/foreign_key_check of the real database',
+   text='From every S2/S3 start (cross-model and cross-app FK/O2O/M2M, prefix model names, single-character app label) all sequences up to depth 2 (quick) / 3 (thorough) of RenameModel, RenameAppLabel, RenameField, DeleteField, DeleteModel, DeleteApplication, AddField; after every transition no relation in the simulated signature may dangle or mention a renamed-away name, and every database foreign key must point at an existing table/column and validate.',
+   note='Crashes/SQL errors of a transition are C01 business. Rows (R2) are present so foreign_key_check is meaningful.',
+   design='3/C11'),
  'C18': dict(level='model_checking', technique='same exhaustive path enumeration as C03; oracle on CREATE TABLE "TEMP_TABLE" counts per table in the statement traces',
    text='On every enumerated path the number of table rebuilds per table in the batched run (one AppMutator, and the Evolver pipeline) is compared with the stepwise run and with the bound of one rebuild per maximal run of consecutive mergeable same-model mutations.',
    note='Rebuilds are recognised as CREATE TABLE "TEMP_TABLE" + RENAME in the connection.execute_wrapper trace; model identity follows RenameModel, ambiguous table-name reuse is skipped and counted.',
